@@ -11,6 +11,7 @@ import Homonim.Model.Resample
 import Homonim.Model.Mask
 import Homonim.Model.Convert
 import Homonim.Model.Layout
+import Homonim.Model.Stats
 open Homonim
 
 def ints (ts : List String) : Option (List Int) := ts.mapM String.toInt?
@@ -130,6 +131,42 @@ def handleConvert (toks : List String) : String :=
     | _, _, _ => "bad-args"
   | _ => "bad-args"
 
+/-- cmpstats S <v...> R <v...>  (same length, `_` = invalid)  →  n r2 rmse2 rrmse2 -/
+def handleCmp (toks : List String) : String :=
+  match toks with
+  | "S" :: rest =>
+    let sT := rest.takeWhile (· ≠ "R")
+    let rT := (rest.dropWhile (· ≠ "R")).drop 1
+    match parseGrid sT, parseGrid rT with
+    | some sa, some ra =>
+      if sa.size ≠ ra.size then "bad-args" else
+      let pts : List (Rat × Rat) := (List.range sa.size).filterMap fun i =>
+        match sa.getD i none, ra.getD i none with
+        | some a, some b => some (a, b)
+        | _, _ => none
+      let st := bandStats (blockSums pts)
+      s!"{st.n} {showORat st.r2} {showORat st.rmse2} {showORat st.rrmse2}"
+    | _, _ => "bad-args"
+  | _ => "bad-args"
+
+/-- pstats <thresh|_> <withInpaint> T v.. T v..   (tiles of valid values)  →  n mean var min max inpaintP -/
+def handlePStats (toks : List String) : String :=
+  match toks with
+  | th :: wi :: rest =>
+    let thresh : Option (Option Rat) := if th = "_" then some none else (parseRat th).map some
+    -- split on "T"
+    let tiles : List (List String) := (rest.foldl (fun (acc : List (List String)) t =>
+      if t = "T" then [] :: acc else match acc with
+        | [] => [[t]]
+        | x :: xs => (t :: x) :: xs) []).map List.reverse |>.reverse
+    match thresh, tiles.mapM (fun tl => tl.mapM parseRat) with
+    | some thresh, some tv =>
+      let acc := (tv.map (tileAcc thresh)).foldl PAcc.add PAcc.zero
+      let st := paramStats acc (wi ≠ "0")
+      s!"{acc.n} {showORat st.mean} {showORat st.var} {showORat st.min} {showORat st.max} {showORat st.inpaintP}"
+    | _, _ => "bad-args"
+  | _ => "bad-args"
+
 def handle (toks : List String) : String :=
   match toks with
   | "blocks1" :: rest =>
@@ -205,6 +242,8 @@ def handle (toks : List String) : String :=
       s!"{if r.1.northUp then 1 else 0} {r.1.crs} {if r.2.northUp then 1 else 0} {r.2.crs}"
     | _ => "bad-args"
   | "fit" :: rest => handleFit rest
+  | "cmpstats" :: rest => handleCmp rest
+  | "pstats" :: rest => handlePStats rest
   | "convert" :: rest => handleConvert rest
   | "resample" :: rest => handleResample rest
   -- erode kh kw h w <h*w bits>  : `_full_coverage_mask` erosion over one block (false border)
